@@ -6,7 +6,7 @@ import common
 import corr
 import fstree
 
-RULE = ("trees with 0, 1, 2 and many matching entries, non-integer means, large (sparse) sizes x random non-empty "
+RULE = ("one tree of 521 sparse files of about 16 TiB each (total above 2^53, odd: SUM must be exact); trees with 0, 1, 2 and many matching entries, non-integer means, large (sparse) sizes x random non-empty "
         "subsets of the nine aggregates over size, hardlinks, uid, line_count, length(name) x optional WHERE; "
         "(a) CLI output vs the Lean model (floats compared with relative tolerance 1e-9), (b) oracle: Python "
         "Fraction/math over the rows of the same query without aggregates. distinct = (tree, argv); nontrivial = "
@@ -49,12 +49,47 @@ def close(txt, want):
     return abs(got - w) <= 1e-9 * max(1.0, abs(w))
 
 
+def part_huge_total(ctx, scratch):
+    """SUM is exact also when the total does not fit the 53-bit mantissa of a double: several hundred sparse files
+    of (nearly) the largest size the file system allows, with an odd total above 2^53"""
+    import os
+    root = os.path.join(scratch, "huge")
+    os.makedirs(root)
+    big = 17592186040319          # 16 TiB - 4 KiB - 1: the ext4 limit minus one, odd
+    n = 0
+    try:
+        for i in range(521):
+            with open(os.path.join(root, "s%03d" % i), "wb") as f:
+                f.truncate(big - (i % 3))
+            n += 1
+    except OSError as e:
+        ctx.notes.append("huge-total part skipped: the scratch file system refuses %d-byte sparse files (%s)" % (big, e))
+        common.rm_tree(root)
+        return
+    xs = [os.lstat(os.path.join(root, nm)).st_size for nm in sorted(os.listdir(root))]
+    total = sum(xs)
+    for where, sub in (("", xs), (" where size = %d" % big, [x for x in xs if x == big])):
+        q = "select sum(size), count(*), min(size), max(size) from .%s into list" % (where + (" and " if where else " where ") + "is_file = true")
+        ctx.case(("huge", q))
+        ctx.distinct.add(("huge", q, "nt"))
+        r0 = common.run_cli([q], cwd=root, scratch=scratch, timeout=60)
+        got = [v.decode() for v in r0["out"].split(b"\0")[:-1]]
+        want = [str(sum(sub)), str(len(sub)), str(min(sub)), str(max(sub))]
+        if r0["status"] != 0 or got != want:
+            ctx.oracle_fail("SUM/COUNT/MIN/MAX over sizes whose total exceeds 2^53 are not exact", {"argv": [q], "tree": "%d sparse files of about 16 TiB each" % n},
+                            detail={"got": got, "want": want, "total_exceeds_2_53": sum(sub) > 2 ** 53, "status": r0["status"]})
+    ctx.count("huge_total_files", n)
+    assert total > 2 ** 53
+    common.rm_tree(root)
+
+
 def run(ctx):
     quick = ctx.tier == "quick"
     ntrees = 20 if quick else 200
     per_tree = 10 if quick else 30
     scratch = common.new_scratch()
     try:
+        part_huge_total(ctx, scratch)
         for t in range(ntrees):
             r = ctx.rng.fork()
             sizes = r.choice([[0, 1, 2, 3, 5, 7, 10, 100, 1023, 1025], [1, 2], [10, 11, 13, 4096],
